@@ -172,8 +172,11 @@ impl<B: AsRef<[usize]> + BitLength, C: AsRef<[BlockCounters]>> Select9<Rank9<B, 
         // construct the inventory
         let mut curr_num_ones = 0;
         let mut next_quantum = 0;
+        let num_ones = rank9.num_ones();
         for (i, word) in rank9.bits.as_ref().iter().copied().enumerate() {
-            let ones_in_word = word.count_ones() as usize;
+            // Backend bits beyond the length of the bit vector (stale
+            // bits of the last word, spare words) are not ones of the vector
+            let ones_in_word = (word.count_ones() as usize).min(num_ones - curr_num_ones);
 
             while curr_num_ones + ones_in_word > next_quantum {
                 let in_word_index = word.select_in_word(next_quantum - curr_num_ones);
